@@ -16,7 +16,7 @@ EXPLANATION = (
     "the elapsed-time guard, and the new window start is the instant that guard compared; (ADMIT) in the service "
     "the wrapped call is reached only on the Ok edge of awaiting acquire, once, outside any cycle."
     ' (SENTINEL) an `Ok(wait)` answered on a path that took no permit has no origin that is zero by construction (literal ZERO, `checked_*(..).unwrap_or(ZERO)`, `min(_, timeout_duration)`): `Ok(ZERO)` means "permit taken" to acquire(). Numeric waits computed by helpers are not judged.'
-    ' (STALE) no window state uses a value computed from one of its fields after that field was overwritten on the way (a wait computed from the window start of the previous period).')
+    ' (STALE) no window state uses a value computed from one of its fields after that field was overwritten on the way (a wait computed from the window start of the previous period). (refresh-start) past the edge on which the period is over and capacity is restored, every way out of the window function advances the window start; the window rules follow the state through the private structs it stores.')
 RULE = "one obligation per Ok-return of acquire, per window state (consume, capacity, refill writes), per wrapped-call site"
 TRUSTED = ["std::sync::Mutex (mutual exclusion of window updates)", "tokio::time::sleep", "rustc MIR construction"]
 ASSUMPTIONS = ["limit_for_period >= 1 (the property's quantifier) for the one reasoned exception in the sliding log"]
